@@ -93,11 +93,13 @@ Lemma step_J c ch s o s' rp :
   op_wf o -> D.step c ch s o = (s', rp) -> table_J (D.tbl s) -> table_J (D.tbl s').
 Proof.
   intros Hw H HJ l Hin.
-  destruct (G.step_shaped c ch s o s' rp H l Hin) as [[l0 [H0 [Ec Ha]]]|[Hm [Ec Ha]]].
+  destruct (G.step_shaped c ch s o s' rp H l Hin) as [[l0 [H0 [Ec Ha]]]|[[Hm [Ec Ha]]|[_ [l0 [H0 [Ec [Es Ei]]]]]]].
   - destruct (HJ l0 H0) as [J1 [J2 J3]]. rewrite Ec in J1, J2. unfold lease_J. repeat split; auto.
     intros Hs. destruct (Ha Hs) as [S0 [_ [_ [E3 _]]]]. rewrite <- E3. auto.
   - unfold G.op_cid, op_wf in *. destruct (DC.op_msg o) as [m|]; [|congruence].
     unfold lease_J. rewrite Ec. repeat split; auto; [apply getcid_not_1|]. intros Hs. apply (Ha Hs).
+  - destruct (HJ l0 H0) as [J1 [J2 J3]]. rewrite Ec in J1, J2. unfold lease_J. repeat split; auto.
+    intros Hs. rewrite <- Ei. apply J3. congruence.
 Qed.
 
 Lemma run_J c h : forall s, hist_wf h -> table_J (D.tbl s) -> table_J (D.tbl (fst (D.run c s h))).
@@ -250,6 +252,10 @@ End Oracle.
 
 Definition saves_on_ack (s : D.dstate) (rp : option D.reply) (s1 : D.dstate) : bool := G.is_ack_reply rp.
 
+(* ops of the library: everything but the verif hook that rewrites an expiry in memory *)
+Definition lib_op (o : D.op) : Prop := ~ G.hook_op o.
+Definition lib_hist (h : list ((N -> nat) * D.op)) : Prop := Forall (fun p => lib_op (snd p)) h.
+
 Section File.
   Variable saves : D.dstate -> option D.reply -> D.dstate -> bool.
 
@@ -274,32 +280,34 @@ Section File.
     forall l, In l f -> D.l_state l = D.SAllocated -> alloc_in t l.
 
   Lemma same_binding_trans a b c0 : G.same_binding a b -> G.same_binding b c0 -> G.same_binding a c0.
-  Proof. unfold G.same_binding. intros [A1 [A2 [A3 A4]]] [B1 [B2 [B3 B4]]]. repeat split; congruence. Qed.
+  Proof. unfold G.same_binding. intros [A1 [A2 [A3 [A4 A5]]]] [B1 [B2 [B3 [B4 B5]]]]. repeat split; congruence. Qed.
   Lemma same_binding_refl a : G.same_binding a a.
-  Proof. unfold G.same_binding. auto. Qed.
+  Proof. unfold G.same_binding. auto 10. Qed.
   Lemma same_binding_sym a b : G.same_binding a b -> G.same_binding b a.
-  Proof. unfold G.same_binding. intros [A1 [A2 [A3 A4]]]. repeat split; congruence. Qed.
+  Proof. unfold G.same_binding. intros [A1 [A2 [A3 [A4 A5]]]]. repeat split; congruence. Qed.
 
   Hypothesis saves_acks : forall s rp s1, G.is_ack_reply rp = true -> saves s rp s1 = true.
 
   Lemma covers_step c ch s o s1 rp f :
+    lib_op o ->
     D.step c ch s o = (s1, rp) -> covers f (D.tbl s) ->
     covers (if saves s rp s1 then D.tbl s1 else f) (D.tbl s1).
   Proof.
-    intros H Hc. destruct (saves s rp s1) eqn:Es.
+    intros Hlib H Hc. destruct (saves s rp s1) eqn:Es.
     - intros l Hl Ha. exists l. repeat split; auto.
     - intros l Hl Ha.
-      destruct (G.step_shaped c ch s o s1 rp H l Hl) as [[l0 [H0 [Ec Hk]]]|[_ [_ Hm]]].
+      destruct (G.step_shaped c ch s o s1 rp H l Hl) as [[l0 [H0 [Ec Hk]]]|[[_ [_ Hm]]|[Hh _]]]; [| |contradiction].
       + destruct (Hk Ha) as [S0 B0]. destruct (Hc l0 H0 S0) as [l' [Hl' [Sl' Bl']]].
         exists l'. split; [exact Hl'|]. split; [exact Sl'|]. eapply same_binding_trans; eauto.
       + destruct (Hm Ha) as [A _]. rewrite (saves_acks s rp s1 A) in Es. discriminate.
   Qed.
 
-  Lemma covers_run c h : forall s f, covers f (D.tbl s) ->
+  Lemma covers_run c h : lib_hist h -> forall s f, covers f (D.tbl s) ->
     covers (snd (run_file c s f h)) (D.tbl (fst (run_file c s f h))).
   Proof.
-    induction h as [|[ch o] r IH]; intros s f Hc; [exact Hc|].
-    simpl. destruct (D.step c ch s o) as [s1 rp] eqn:E. apply IH. eapply covers_step; eauto.
+    induction h as [|[ch o] r IH]; intros Hl s f Hc; [exact Hc|].
+    inversion Hl; subst.
+    simpl. destruct (D.step c ch s o) as [s1 rp] eqn:E. apply IH; auto. eapply covers_step; eauto.
   Qed.
 
   (* a step after which no Allocated binding of the table before is lost without a save *)
@@ -330,8 +338,9 @@ End File.
 
 (* C18_file_covers (full): after EVERY history, every acknowledged binding of the table is in the file *)
 Lemma file_covers c h :
+  lib_hist h ->
   let r := run_file saves_on_ack c (D.init c) [] h in covers (snd r) (D.tbl (fst r)).
-Proof. apply covers_run; [intros; assumption|]. intros l []. Qed.
+Proof. intros Hl. apply covers_run; auto. intros l []. Qed.
 
 (* C18_file_current_partial: if no step loses an acknowledged binding without acknowledging something, the file
    holds nothing stale *)
@@ -428,7 +437,8 @@ End Policy.
 
 (* the canonical policy *)
 Definition same_bindingb (a b : D.lease) : bool :=
-  (D.l_cid a =? D.l_cid b) && (D.l_mac a =? D.l_mac b) && D.oeqb (D.l_ip a) (D.l_ip b) && Bool.eqb (D.l_net2 a) (D.l_net2 b).
+  (D.l_cid a =? D.l_cid b) && (D.l_mac a =? D.l_mac b) && D.oeqb (D.l_ip a) (D.l_ip b) && Bool.eqb (D.l_net2 a) (D.l_net2 b)
+  && (D.l_exp a =? D.l_exp b)%Z.
 Definition nonfreeb (l : D.lease) : bool := negb (D.lstate_eqb (D.l_state l) D.SFree).
 Definition survives (t1 : list D.lease) (l : D.lease) : bool :=
   negb (nonfreeb l) || existsb (fun l1 => nonfreeb l1 && same_bindingb l1 l) t1.
@@ -440,9 +450,9 @@ Proof. destruct a, b; simpl; intros H; try discriminate; auto. apply N.eqb_eq in
 
 Lemma same_bindingb_spec a b : same_bindingb a b = true -> G.same_binding a b.
 Proof.
-  unfold same_bindingb, G.same_binding. intros H.
+  unfold same_bindingb, G.same_binding. intros H. apply andb_true_iff in H as [H H5].
   apply andb_true_iff in H as [H H4]. apply andb_true_iff in H as [H H3]. apply andb_true_iff in H as [H1 H2].
-  apply N.eqb_eq in H1, H2. apply oeqb_eq in H3. apply Bool.eqb_prop in H4. auto.
+  apply N.eqb_eq in H1, H2. apply oeqb_eq in H3. apply Bool.eqb_prop in H4. apply Z.eqb_eq in H5. auto 10.
 Qed.
 
 Lemma nonfreeb_spec l : nonfreeb l = true <-> nonfree l.
@@ -462,11 +472,12 @@ Qed.
 (* C18_file_current (repaired code): after EVERY history nothing acknowledged is missing from the file and nothing
    in the file is stale, up to clients that are re-negotiating a lease they still hold *)
 Lemma file_current_repaired c h :
+  lib_hist h ->
   let r := run_file saves_repaired c (D.init c) [] h in
   covers (snd r) (D.tbl (fst r)) /\ current_mod (snd r) (D.tbl (fst r)).
 Proof.
-  split.
-  - apply covers_run; [|intros l []]. intros s rp s1 A. unfold saves_repaired. rewrite A. reflexivity.
+  intros Hl. split.
+  - apply covers_run; [|exact Hl|intros l []]. intros s rp s1 A. unfold saves_repaired. rewrite A. reflexivity.
   - apply (current_mod_run saves_repaired saves_repaired_lost). intros l [].
 Qed.
 
